@@ -11,7 +11,10 @@ CONFIG = dict(
     level_note=NOTE_COMMON,
     rule=("Case = validators/weights + DAG (20-90 events) + cache config + Build-history class {none, short, 256+, 512+, long}. "
           "Non-trivial = the case has an event with >= 2 allowed frames, a rejected claim, or a Build after >= 256 earlier Builds; "
-          "distinct by hash of DAG, probe position and history class."),
+          "distinct by hash of DAG, probe position and history class. Unit TestC04DeepLag: three validators holding a quorum run past frame 103-112 "
+          "while a fourth has only its first event; its second event may claim any frame up to the true maximum (> 101): Build must assign exactly 101, "
+          "Process must accept claims above 101 and reject claims above the true maximum; non-trivial = true maximum above the Build cap."),
     assumptions=["forking validators hold < 1/3 of the weight", "one epoch without sealing"],
-    units=[dict(test="TestC04FrameRule", quick=250, thorough=40000, shards=16)],
+    units=[dict(test="TestC04FrameRule", quick=250, thorough=40000, shards=16),
+           dict(test="TestC04DeepLag", quick=6, thorough=320, shards=16)],
 )
